@@ -143,13 +143,19 @@ def reader_rule(chk, rule='C17.R6'):
         [('1', 'N', 'NONE', pick[0], 'N'), ('2', 'E', 'NS', pick[1], 'E'), ('3', 'S', 'BOTH', pick[2], 'W')],
         # board numbers repeat (two rooms / two sessions in one file), first seat of the Deal tag differs from the dealer
         [('1', 'W', 'EW', pick[2], 'S'), ('1', 'W', 'EW', pick[0], 'N'), ('7', 'S', 'NONE', pick[1], 'E')],
+        # ids over the alphabet of the property (letters, digits, space and . , - _ / ( ) ' + # :), incl. ids that are a single sign - `#`, `-`,
+        # `+` carry a meaning as tag VALUES elsewhere in PBN ("same as the previous game", "no value") but as a board id they are the id
+        [("O'Neil (A) 1/2", 'N', 'BOTH', pick[1], 'S'), ('#', 'E', 'NONE', pick[0], 'E'), ('#', 'S', 'NS', pick[2], 'N'), ('-', 'W', 'EW', pick[1], 'W'),
+         ('+', 'N', 'NONE', pick[0], 'N'), (':', 'E', 'BOTH', pick[2], 'S'), ('A.1, b_2', 'S', 'NS', pick[0], 'E'), ('#1', 'W', 'NONE', pick[1], 'N')],
     ]
     pci = repo.cls('PbnParser', rule)
     n = 0
     for ci_, conf in enumerate(confs):
         games = [(b, d, v, pbn_oracle(deals[dn], first)) for b, d, v, dn, first in conf]
         want = [(b, d, v, hands_sig(deals[dn])) for b, d, v, dn, first in conf]
-        for lname, text in layouts(games):
+        for li_, (lname, text) in enumerate(layouts(games)):
+            if ci_ == 2 and chk.tier == 'quick' and li_ not in (0, 1, 6, 7):
+                continue        # the id alphabet does not interact with blank-line / header layouts: four layouts in the quick tier
             n += 1
             chk.evals()
             f.steps = 0
